@@ -55,12 +55,12 @@ def norm(d):
     return {k: v for k, v in d.items() if v != 0}
 
 
-def mutable_usize_locals(m):
+def mutable_usize_locals(m, any_defs=False):
     out = {}
     for l, decl in enumerate(m.locals):
         if l <= m.arg_count or not decl.get("name") or decl["ty_str"] != "usize":
             continue
-        if len(m.defs().get(l, [])) > 1:
+        if any_defs or len(m.defs().get(l, [])) > 1:
             out[l] = decl["name"]
     return out
 
@@ -294,6 +294,9 @@ def rule_E2(prog):
         if not fn.mir or fn.module not in SCOPE_MODULES:
             continue
         sc = CursorScan(fn)
+        # a remainder may also be flushed from a position a helper returned (`let (old_pos, new_pos) = walk(..)?`):
+        # any named usize local can be the `c` of a guarded `emit(n - c)`
+        sc.cursors = mutable_usize_locals(fn.mir, any_defs=True)
         if not sc.cursors:
             continue
         m = fn.mir
